@@ -12,6 +12,7 @@ import (
 	"flag"
 	"fmt"
 	"os"
+	"os/exec"
 	"strings"
 )
 
@@ -28,6 +29,9 @@ var (
 	flagSelf   = flag.String("selftest", "", "run the lexer self-tests (html|md|json|all) and exit")
 	flagFinal  = flag.String("final", "", "append this op (for table 1) to every scenario: renderall")
 	flagSwap   = flag.String("swapfinal", "", "turn the final render op of every scenario into this op (faultsweep)")
+	flagChild  = flag.Bool("child", false, "(internal) run scenarios in this process even if they touch the registry")
+	flagRounds = flag.Int("rounds", 3, "conc mode: concurrent rounds")
+	flagGroup  = flag.Int("group", 16, "conc mode: goroutines per round")
 	flagBytes  = flag.Bool("bytes", false, "item strings are byte strings in Latin-1 transport (CSV family)")
 	flagMode   = flag.String("mode", "scenario", "scenario | registry | conc (special drivers)")
 )
@@ -107,6 +111,14 @@ func main() {
 		if *flagSubst != 0 {
 			sub = newSubstitution(*flagSubst+int64(n), *flagPool)
 		}
+		if !*flagChild && touchesRegistry(ops) {
+			// the decoration registry is process-global and only grows: a scenario
+			// that registers names runs in a process of its own
+			w.Flush()
+			runIsolated(outf, id, ops)
+			nops += len(ops)
+			continue
+		}
 		runScenario(w, id, ops, facets, *flagEvery, sub)
 		nops += len(ops)
 	}
@@ -123,6 +135,35 @@ func main() {
 
 // counters reported in the driver's stats line (evidence)
 var faultRuns, renderCalls int
+
+func touchesRegistry(ops []M) bool {
+	for _, op := range ops {
+		if op["op"] == "regdecor" {
+			return true
+		}
+	}
+	return false
+}
+
+// runIsolated re-executes this binary for one scenario and copies its trace.
+func runIsolated(out *os.File, id string, ops []M) {
+	b, err := json.Marshal(M{"id": id, "ops": ops})
+	if err != nil {
+		fatal(err)
+	}
+	args := []string{"-child", "-in", "-", "-facets", *flagFacets}
+	if *flagEvery {
+		args = append(args, "-every")
+	}
+	cmd := exec.Command(os.Args[0], args...)
+	cmd.Stdin = bytes.NewReader(append(b, '\n'))
+	cmd.Stdout = out
+	var eb bytes.Buffer
+	cmd.Stderr = &eb
+	if err := cmd.Run(); err != nil {
+		fatal(fmt.Errorf("isolated scenario %s: %v: %s", id, err, eb.String()))
+	}
+}
 
 func fatal(err error) {
 	fmt.Fprintf(os.Stderr, "vdrive: fatal: %v\n", err)
